@@ -87,10 +87,16 @@ Theorem C16_isolation_frame : forall (key val reply op : Type) (run : op -> (key
 Proof. exact isolation. Qed.
 Print Assumptions C16_isolation_frame.
 
-(** ... and its instance for a path-addressed store (create/write/read/unlink/rename inside the
-    client's own subtree).  PARTIAL: a rename from one client's subtree into the other's is
-    excluded (it is observable, [cross_rename_observed]); walks/fids/directories of the real
-    server are covered by the concurrent-vs-alone differential of the harness, not by this model. *)
+(** ... and its instance for a path-addressed store: create/mkdir/write/read/unlink, renames of files
+    between any two directories and renames of whole directories (with everything below) inside the
+    client's own subtree.  "Disjoint" means: every path an operation names (both ends of a rename,
+    everything below a renamed directory) lies under the client's own top-level directory.  A rename
+    with one end in the other client's subtree is NOT disjoint work in the sense of the property
+    text ("disjoint fids and disjoint subtrees"), and [cross_rename_observed] proves the conclusion
+    fails for it — no contradiction with the property, the side condition is necessary.
+    PARTIAL in this sense: the instance is a store model, not the server model (fids, walks, QIDs, the
+    path tree and its locks are not in it); the real server is tied by the concurrent-vs-alone
+    differential of the harness (with renames between the client's own directories). *)
 Theorem C16_isolation_partial : forall c h s, (forall d o, In (d, o) h -> under d o) ->
   only c (run_all _ _ _ _ frun s h) = run_all _ _ _ _ frun s (only c h).
 Proof. exact fs_isolation. Qed.
@@ -114,3 +120,7 @@ Qed.
 (** the valuation hypothesis [respects] is satisfiable for every site of the table *)
 Theorem C16_valuations_exist : forall st, In st sites -> respects rho_ex (full_path st).
 Proof. exact canonical_respects. Qed.
+
+Example C16_cross_directory_rename_allowed :
+  under true (ORename ["a"; "x"; "f"] ["a"; "y"; "g"])%string /\ under false (ORenameDir ["b"; "d"] ["b"; "e"; "d2"])%string.
+Proof. exact cross_directory_rename_allowed. Qed.
